@@ -141,6 +141,9 @@ structure Rule where
   /-- a struct field whose JSON name is a number lies on the path (as shipped, `resolvePath` took
       every numeric segment for an index and gave up on a struct: K05d) -/
   num : Bool
+  /-- a field promoted from an embedded struct lies on the path (as shipped, `resolvePath` did not
+      look into embedded structs: K05h) -/
+  emb : Bool
   /-- as shipped (K05c): `resolvePath` pairs a slice/array *element* with the StructField of its
       *container*; `cresolves` = the path resolves and that field's tag is non-empty -/
   cresolves : Bool
@@ -238,6 +241,12 @@ def ownTagsAsIs (rules : List Rule) (p : Path) : Option (List Bytes) :=
 def ownTagsNum (rules : List Rule) (p : Path) : List Viol :=
   match ruleFor rules p with
   | some r => if r.resolves && !r.num then r.tags else []
+  | none => []
+
+/-- K05h as shipped: a path through a field promoted from an embedded struct does not resolve -/
+def ownTagsEmb (rules : List Rule) (p : Path) : List Viol :=
+  match ruleFor rules p with
+  | some r => if r.resolves && !r.emb then r.tags else []
   | none => []
 
 /-- K05, K05b, K05c repaired, K05d as shipped -/
